@@ -13,6 +13,7 @@ mod flow;
 mod gate;
 mod libcall;
 mod ops;
+mod push;
 mod replay;
 mod world;
 
@@ -49,7 +50,7 @@ fn arg_value(args: &[String], name: &str) -> Option<String> {
 }
 
 /// Runs `f` on a fresh current-thread runtime with a paused clock and a seeded RNG.
-pub fn run_on_runtime<F, Fut>(seed: u64, f: F) -> Result<Vec<Value>, String>
+pub fn run_on_runtime<F, Fut>(seed: u64, paused: bool, f: F) -> Result<Vec<Value>, String>
 where
     F: FnOnce() -> Fut + std::panic::UnwindSafe,
     Fut: std::future::Future<Output = Vec<Value>>,
@@ -59,7 +60,7 @@ where
         bytes[..8].copy_from_slice(&seed.to_le_bytes());
         let runtime = tokio::runtime::Builder::new_current_thread()
             .enable_all()
-            .start_paused(true)
+            .start_paused(paused)
             .rng_seed(tokio::runtime::RngSeed::from_bytes(&bytes))
             .build()
             .expect("runtime");
@@ -131,12 +132,13 @@ fn child(jobs_path: &str, out: &str, threads: usize) {
                             Job::Explore { explore } => {
                                 let profile = explore.profile.clone();
                                 let seed = explore.seed;
-                                run_on_runtime(seed, move || async move { explore::run(seed, &profile, Some(sink2)).await })
+                                run_on_runtime(seed, true, move || async move { explore::run(seed, &profile, Some(sink2)).await })
                             }
                             Job::Scenario(v) => match serde_json::from_value::<replay::Scenario>(*v) {
                                 Ok(scenario) => {
                                     let seed = scenario.seed;
-                                    run_on_runtime(seed, move || async move { replay::run_scenario(&scenario, Some(sink2)).await })
+                                    let paused = scenario.meta.get("clock").and_then(|c| c.as_str()) != Some("real");
+                                    run_on_runtime(seed, paused, move || async move { replay::run_scenario(&scenario, Some(sink2)).await })
                                 }
                                 Err(e) => Err(format!("bad scenario: {}", e)),
                             },
